@@ -31,6 +31,10 @@ pub fn mode_of(base: u64, family: Family, idx: u64) -> (Mode, u64) {
             let seed = run_seed(base, family, idx / per);
             (Mode::Prefix(crate::families::c04x_point(idx % per), seed), seed)
         }
+        Family::C11X => {
+            let seed = run_seed(base, family, idx);
+            (Mode::Prefix(crate::families::c11x_point(idx % crate::families::c11x_total()), seed), seed)
+        }
         Family::C16X => {
             // every point of the enumeration, round after round; each execution has its own schedule seed
             let seed = run_seed(base, family, idx);
